@@ -719,6 +719,42 @@ func ruleRecordClone(c *Ctx, ix *PkgIndex, rule string) {
 				}
 				return true
 			})
+			// … on every returning path, for the very value that is returned (a fast path that hands out *r, or a copy whose field
+			// was not re-allocated, shares the backing store — also when a copy-on-write flag is meant to make that safe:
+			// appends into spare capacity are writes too)
+			if fresh {
+				g := ix.FG(fn)
+				for _, x := range g.Nodes {
+					rs, isR := x.N.(*ast.ReturnStmt)
+					if !isR || len(rs.Results) != 1 {
+						continue
+					}
+					rv := objOf(info, rs.Results[0])
+					if rv == nil {
+						fresh = false
+						continue
+					}
+					through := toSet(g.Match(func(n ast.Node) bool {
+						as, isAs := n.(*ast.AssignStmt)
+						if !isAs || len(as.Lhs) != len(as.Rhs) {
+							return false
+						}
+						for i, l := range as.Lhs {
+							fv, base := fieldOf(info, l)
+							if fv == nil || fv != f.Origin() || base == nil || !sameVar(info, base, rv) {
+								continue
+							}
+							if call, ok := unparen(as.Rhs[i]).(*ast.CallExpr); ok && (isCallTo(info, call, "slices.Clone") || isCallTo(info, call, "maps.Clone") || builtinName(info, call) == "make" || builtinName(info, call) == "append") {
+								return true
+							}
+						}
+						return false
+					}))
+					if d, _ := g.DominatedByNodes(x, through); !d || len(through) == 0 {
+						fresh = false
+					}
+				}
+			}
 			c.Check(fresh, rule, key, at(ix.M, fn.Pos()), "re-allocated in Clone", "Clone shares the "+f.Name()+" backing store with the original: editing one record changes the other (and the queued copy)")
 		case *types.Pointer, *types.Chan, *types.Signature, *types.Interface:
 			if r, ok := shared[f.Name()]; ok {
